@@ -358,6 +358,11 @@ struct Watch {
     active: AtomicU64,
 }
 
+/// CPU time consumed so far by the calling thread.
+pub fn own_cpu_ns() -> u64 {
+    thread_cpu_ns(libc::CLOCK_THREAD_CPUTIME_ID)
+}
+
 fn thread_cpu_ns(clock: libc::clockid_t) -> u64 {
     let mut ts = libc::timespec { tv_sec: 0, tv_nsec: 0 };
     unsafe { libc::clock_gettime(clock, &mut ts) };
